@@ -131,7 +131,8 @@ func rateScenario(run *rep.Run, c rcfg, bh behaviour, id int) {
 				case "anthropic":
 					path, body = "/olla/anthropic/v1/messages", `{"model":"mall","max_tokens":4,"messages":[{"role":"user","content":"x"}]}`
 				case "mixed-paths":
-					path = []string{"/olla/proxy/v1/chat/completions", "/olla/proxy/api/generate", "/olla/proxy/x/y", "/olla/ollama/api/chat"}[i%4]
+					// every proxied path spends the same per-IP budget, also ones that merely look like Olla's own exempted endpoints
+				path = []string{"/olla/proxy/v1/chat/completions", "/olla/proxy/api/generate", "/olla/proxy/x/y", "/olla/ollama/api/chat", "/olla/proxy/health", "/olla/ollama/health/", "/olla/proxy/internal/health", "/olla/proxy/version", "/olla/proxy/internal/status"}[i%9]
 					body = `{"model":"mall","messages":[]}`
 					if i%5 == 4 {
 						// non-proxied paths in between must not grant extra admissions
